@@ -31,6 +31,11 @@ CLAIMED = {
    "Sequences of up to 200 parse calls (file, expression, globals, compile) execute inside one simulated process. The simulator owns the task table and the channel model, so 'the scanner has exited when the call returns' is decided exactly at quiescence - no goroutine-count polling, no sleeps. Both schedules that matter (scanner blocked in a send when the parser gives up; scanner not yet there) are forced. Exhaustive over every prefix of the corpus, seeded beyond.",
    "Trusts the channel enabledness model of verif/simrt (differentially tested against native channels) and that soy blocks only on channels (the instrumenter lists any sync.WaitGroup/Cond use as un-modelled).",
    "DESIGN.md section 4 C18"),
+ "C06": ("fault_enumeration",
+   "fault-point enumeration under the simulator's step clock: for every run, a panic (four value kinds) at every invocation of a user function/directive, a writer error at every write, every catalogue misbehaviour at every lookup, reader faults at every byte offset; unbounded loops decided by step budget",
+   "The dangerous code is the error path (recover wrappers, position lookup while building the error), which only runs when something fails and must hold wherever the failure lands. Each generated render (valid and chaos-mode bundles, arbitrary data shapes) is first run fault-free to record its fault points, then re-run once per fault point; EvalExpr and ParseGlobals get the same treatment through fault-injecting readers. Everything runs on the instrumented build under a step clock, so 'no loop runs unboundedly' is a deterministic verdict (range with a non-positive step is caught in milliseconds). Fault points exhaustive per case; cases seeded.",
+   "Trusts the generator's chaos mutations to reach the ill-typed operand that provokes a given panic (found with the probability of generating it) and the step budget constant (60x the measured need).",
+   "DESIGN.md section 4 C06"),
  "C08": ("exploration",
    "operation histories over one long-lived compiled bundle checked step by step against a fresh-compile reference model, plus structural digests of every shared object after every operation (fault operations included)",
    "One compiled bundle, one set of data/$ij maps and catalogues live through a seeded history of renders, faulted renders (failing writer at write k, user function panicking at invocation n, ill-typed data), JS generation, re-compilation and reused Renderer values, with 0-2 obligatory directives configured. After every operation outputs must equal a model computed on a freshly compiled bundle and a reflection digest of data, $ij, catalogue, registry (every AST node), soy.Bundle and global registries must be unchanged. Histories run on the plain and on the instrumented build. Seeded sampling of histories and bundles.",
@@ -59,7 +64,7 @@ def main():
             "technique": tech,
         })
     na = [{"property_id": k, "reason": v} for k, v in sorted(NA.items())]
-    planned = ["C06", "C09", "C10", "C13"]
+    planned = ["C09", "C10", "C13"]
     for p in planned:
         if p not in CLAIMED:
             na.append({"property_id": p, "reason": "simulation check designed (DESIGN.md section 4) but not built yet in this tree; not claimed until its check exists"})
